@@ -369,7 +369,7 @@ struct Shared {
 
 /// Each restart costs a process; beyond this many panicking executions the instance is given up
 /// (machinery error, not a verdict).
-const MAX_RESTARTS: usize = 2000;
+const MAX_RESTARTS: usize = 20000;
 
 struct WorkerProc {
     note: String,
